@@ -264,7 +264,7 @@ def main(argv):
                 mlines.append("R %s -" % gzip.decompress(x["stream"]).hex())
             else:
                 mlines.append(l)
-        rc, mout, merr = run_lines(drv, mlines, timeout=900)
+        rc, mout, merr = codeclog.run_lines_bigstack(drv, mlines, timeout=1800)
         if len(mout) != len(mlines):
             c.broken.append("model driver produced %d lines for %d cases (rc %s) %s" % (len(mout), len(mlines), rc, merr[-300:]))
         else:
